@@ -13,6 +13,21 @@ from .base import Leaf
 from .math import ffset
 
 
+def regex_repr(pat: str) -> str:
+    """The pattern as it must be written in a grammar to be read back."""
+    if not pat:
+        return '?""'
+    if '/' not in pat:
+        return f'/{pat}/'
+    if '\n' in pat or ('"' in pat and "'" in pat):
+        # NOTE: strings cannot span lines nor escape their quotes
+        newpat = re.sub(r'(?s)(\\.)|/', lambda m: m.group(1) or r'\/', pat)
+        return f'/{newpat}/'
+    if '"' not in pat:
+        return f'?"{pat}"'
+    return f"?'{pat}'"
+
+
 @nodedataclass
 class Pattern(Leaf):
     pattern: str = ""
@@ -39,14 +54,14 @@ class Pattern(Leaf):
     def _pretty(self, lean=False):
         _ = lean
         pat = self.pattern or ""
-        # multiline patterns are OK
-        pat = trim(pat)
-        if '/' in pat:
-            newpat = pat.replace('"', r'\"')
-            regex = f'?"{newpat}"'
+        if self._regex.flags & re.VERBOSE:
+            # whitespace is not significant: multiline patterns are OK
+            pat = trim(pat)
         else:
-            regex = f'/{pat}/'
-        return regex
+            # whitespace is significant: keep it, with line breaks as \n
+            # because continuation lines get indented
+            pat = re.sub(r'(\\[^\n])|\\?\n', lambda m: m.group(1) or r'\n', pat)
+        return regex_repr(pat)
 
     @cached_property
     def _nullable(self) -> bool:
